@@ -54,11 +54,11 @@ class Doc implements Namespace {
 // apiEnv is a registry configured from an OPL file, with REST routers and gRPC
 // handlers, used by the handler streams.
 type apiEnv struct {
-	reg   *driver.RegistryDefault
-	ctx   context.Context
-	read  http.Handler
-	write http.Handler
-	chk   *check.Handler
+	reg     *driver.RegistryDefault
+	ctx     context.Context
+	read    http.Handler
+	write   http.Handler
+	chk     *check.Handler
 	oplFile string
 }
 
@@ -194,6 +194,15 @@ func streamHCheck(t *testing.T, o *Out) {
 	r := newRand()
 	n := envInt("VERIF_N", 200)
 	env := newAPIEnv(t, hcheckOPL)
+	// The property is about transports, not schedules: with a request depth that binds, the
+	// real concurrent checkgroup lets the engine's own answer depend on which of two sibling
+	// expansions marks a shared subject set visited first (observed: Doc:b#viewers@alice at
+	// max-depth 3 answered allowed by GET and denied by POST on the same state). The
+	// deterministic group makes "the engine's decision" well defined; schedules are the
+	// business of C01/C14/C15.
+	oldFactory := checkgroup.DefaultFactory
+	checkgroup.DefaultFactory = newSeq
+	defer func() { checkgroup.DefaultFactory = oldFactory }()
 	objs := []string{"a", "b", "c", "d", "ü:#@", ""}
 	subs := []string{"alice", "bob", "eve", ""}
 	for i := 0; i < n; i++ {
@@ -227,6 +236,11 @@ func streamHCheck(t *testing.T, o *Out) {
 			}
 			if err := env.reg.RelationTupleManager().WriteRelationTuples(env.ctx, its...); err != nil {
 				t.Fatal(err)
+			}
+			if envInt("VERIF_HC_DUMP", -1) == i {
+				for _, x := range ts {
+					fmt.Println("STATE", x.String())
+				}
 			}
 		}
 		depth := []int{0, 0, 0, 3, 1, -1, 50}[r.Intn(7)]
@@ -298,7 +312,7 @@ func streamHCheck(t *testing.T, o *Out) {
 			if o1 != o3 {
 				open = "get=" + o1 + "/post=" + o3
 			}
-			fmt.Fprintf(&impl, "e%d=%s|%s|%s\t", j, mirror, open, grpcCanon(gr.GetAllowed(), gerr))
+			fmt.Fprintf(&impl, "e%d=%s|%s|%s\tx_t%d=%s depth=%d\t", j, mirror, open, grpcCanon(gr.GetAllowed(), gerr), j, strings.ReplaceAll(en.t.String(), "\t", " "), depth)
 			o.Count("mirror:" + mirror)
 		}
 		// batches
